@@ -45,13 +45,17 @@ def gen_case(rng, tier):
             after.append(emit.emit(gen.place_flags(rng, d, p=0.2, vocab=('prio', 'del', 'new'), notnew=True), 'flow'))
         ctxs.append([before, after])
     ctxs[0] = [[], []]
-    return {'text': emit.emit(doc, rng.choice(['flow', 'block'])), 'ctxs': ctxs, 'safe': rng.random() < 0.85}
+    # where the original text "comes from" and under which name its dump is read back (a snapshot written elsewhere keeps denoting
+    # the same locations: !path:file / !path:parent are relative to the file the node was written in)
+    F1, F2 = '/verif_nowhere/proj/conf/orig.yaml', '/verif_nowhere/runs/0001/snapshot.yaml'
+    fn = rng.choice([(None, None), (None, None), (F1, F1), (F1, F2), (F1, F2), (F1, None)])
+    return {'text': emit.emit(doc, rng.choice(['flow', 'block'])), 'ctxs': ctxs, 'safe': rng.random() < 0.85, 'fn': list(fn)}
 
 
-def parse1(text, safe=True):
+def parse1(text, safe=True, filename=None):
     from awesomeyaml.builder import Builder
     b = Builder()
-    b.add_source(text, raw_yaml=True, safe=safe)
+    b.add_source(text, raw_yaml=True, safe=safe, **({'filename': filename} if filename else {}))
     if len(b.stages) != 1:
         raise ValueError(f'{len(b.stages)} documents')
     return b.stages[0]
@@ -75,11 +79,12 @@ def behaviour(ctx, tree):
 def run(case):
     from awesomeyaml import yaml as ayy
     T, safe = case['text'], case['safe']
-    o = lib.outcome(parse1, T, safe)
+    f1, f2 = case.get('fn') or (None, None)
+    o = lib.outcome(parse1, T, safe, f1)
     if o[0] == 'err':
         return {'status': 'skip', 'feats': ['unparsable']}
     d = o[1]
-    feats = []
+    feats = ['filenames_' + ('none' if not f1 and not f2 else 'same' if f1 == f2 else 'orig_only' if not f2 else 'reparse_only' if not f1 else 'different')]
     vio = []
     t1 = lib.outcome(ayy.dump, d)
     txt = f'text={T!r}'
@@ -87,7 +92,7 @@ def run(case):
         vio.append({'mech': classify_dump_error(T, t1[1]), 'what': f'dump raises {type(t1[1]).__name__}: {util.short(str(t1[1]), 200)}; {txt}'})
     else:
         T1 = t1[1]
-        o2 = lib.outcome(parse1, T1, safe)
+        o2 = lib.outcome(parse1, T1, safe, f2)
         if o2[0] == 'err':
             vio.append({'mech': 'dumped-text-unparsable', 'what': f'dump produced {T1!r} which does not parse: {lib.describe(o2)}; {txt}'})
         else:
@@ -95,18 +100,20 @@ def run(case):
             t2 = lib.outcome(ayy.dump, d2)
             if t2[0] == 'err' or t2[1] != T1:
                 vio.append({'mech': 'dump-not-a-fixpoint', 'what': f'dump(parse(dump(d))) = {t2[1] if t2[0] == "ok" else t2[1]!r} differs from dump(d) = {T1!r}; {txt}'})
-            m1, m2 = md_view(parse1(T, safe)), md_view(d2)
+            m1, m2 = md_view(parse1(T, safe, f1)), md_view(d2)
             if m1 != m2:
                 bad = [p for p in set(m1) | set(m2) if m1.get(p) != m2.get(p)]
                 vio.append({'mech': 'metadata-differs', 'what': f'user metadata at {bad[0]!r}: original {m1.get(bad[0])!r}, re-parsed {m2.get(bad[0])!r}; dumped={T1!r}; {txt}'})
             for ctx in case['ctxs']:
-                a = behaviour(ctx, parse1(T, safe))
-                b = behaviour(ctx, parse1(T1, safe))
+                a = behaviour(ctx, parse1(T, safe, f1))
+                b = behaviour(ctx, parse1(T1, safe, f2))
                 feats.append('ctx_' + a[0])
                 if a != b:
                     vio.append({'mech': 'behaves-differently', 'what': f'in context before={ctx[0]!r} after={ctx[1]!r}: original -> {util.short(_nomv(a), 300)}; re-parsed -> {util.short(_nomv(b), 300)}; dumped={T1!r}; {txt}'})
                     break
-    if vio:
+    if vio and (f1 or f2) and run(dict(case, fn=[None, None])).get('status') != 'violation':
+        pass            # only the file names make the difference: nothing the recorded finding (flag elision) could explain
+    elif vio:
         vio = attribute(vio, T, safe, t1)
     nt = any(tag in T for tag in ('!call', '!bind', '!xref', '!ref', '!eval', '!path', '!include', '!force', '!weak', '!del', '!merge', '!metadata', '!new', '!notnew', '!unsafe'))
     res = {'status': 'violation' if vio else 'ok', 'nontrivial': nt, 'feats': sorted(set(feats)), 'sig': util.sig(T), 'evals': 1 + 2 * len(case['ctxs'])}
